@@ -2,6 +2,8 @@ package main
 
 import (
 	"fmt"
+
+	"github.com/smarthome-go/homescript/v3/homescript/runtime/value"
 	"regexp"
 	"strings"
 
@@ -55,6 +57,61 @@ type progCase struct {
 	Prog *hs.Program
 	P    hs.Printed
 	Tags []string
+	// HostSingletons: values the host provides for singletons (VM only; the interpreter's host
+	// interface differs, such programs carry the tag vm-only)
+	HostSingletons map[string]hs.Val
+}
+
+// toRuntime converts a reference value into a VM value (host-provided singletons).
+func toRuntime(v hs.Val) value.Value {
+	switch x := v.(type) {
+	case int64:
+		return *value.NewValueInt(x)
+	case float64:
+		return *value.NewValueFloat(x)
+	case bool:
+		return *value.NewValueBool(x)
+	case string:
+		return *value.NewValueString(x)
+	case *hs.ListV:
+		elems := make([]*value.Value, len(x.Elems))
+		for i, e := range x.Elems {
+			ev := toRuntime(e)
+			elems[i] = &ev
+		}
+		return *value.NewValueList(elems)
+	case *hs.ObjV:
+		fields := map[string]*value.Value{}
+		for k, f := range x.F {
+			fv := toRuntime(f)
+			fields[k] = &fv
+		}
+		return *value.NewValueObject(fields)
+	}
+	return *value.NewValueNull()
+}
+
+func (pc progCase) opts() RunOpts {
+	o := defaultOpts()
+	if pc.HostSingletons != nil {
+		o.Singletons = map[string]value.Value{}
+		for k, v := range pc.HostSingletons {
+			o.Singletons[k] = toRuntime(v)
+			o.Singletons["$"+k] = toRuntime(v)
+		}
+	}
+	return o
+}
+
+func (pc progCase) eval() hs.RefObs {
+	in := hs.NewInterp(pc.Prog, &pc.P, refBudget)
+	if pc.HostSingletons != nil {
+		in.HostSingletons = map[string]hs.Val{}
+		for k, v := range pc.HostSingletons {
+			in.HostSingletons[k] = hs.CloneVal(v) // the evaluator mutates singletons in place
+		}
+	}
+	return in.Run("main", nil)
 }
 
 func mkCase(p *hs.Program, tags ...string) progCase {
